@@ -117,6 +117,10 @@ func (pp *ListenerWrapper) Provision(ctx caddy.Context) error {
 		if err != nil {
 			return goproxy.REJECT, err
 		}
+		// link-local IPv6 peers carry a zone (e.g. fe80::1%eth0),
+		// and a prefix never contains a zoned address; drop the
+		// zone so that the allow and deny lists apply to them too
+		ip = ip.WithZone("")
 		for _, ipnet := range pp.deny {
 			if ipnet.Contains(ip) {
 				return goproxy.REJECT, nil
